@@ -26,7 +26,7 @@
 (* <<hi, lo>> with value hi*Base + lo (Base = 65536 for the real system,   *)
 (* a small number in the exhaustive configurations).                       *)
 (***************************************************************************)
-EXTENDS Integers, Sequences, FiniteSets
+EXTENDS Integers, Sequences, FiniteSets, TLC
 
 CONSTANTS Base,                      \* radix of the pair representation
           KF_CollisionLastWriter,    \* BOOLEAN, see above
@@ -113,19 +113,22 @@ Scaled(W)  == [i \in DOMAIN W |-> (W[i] * ScaleOf(W)) \div MaxOf(Range(W))]
 RECURSIVE SumOver(_, _)
 SumOver(f, D) == IF D = {} THEN 0 ELSE LET x == CHOOSE x \in D : TRUE IN f[x] + SumOver(f, D \ {x})
 
-RECURSIVE Smooth(_, _, _, _, _, _)
-Smooth(w, T, ids, cur, total, n) ==
-    IF n = 0 THEN <<>>
-    ELSE LET pick == CHOOSE i \in ids : \A j \in ids : cur[j] < cur[i] \/ (cur[j] = cur[i] /\ T[j] <= T[i])
-             nxt  == [i \in ids |-> cur[i] + w[i] - (IF i = pick THEN total ELSE 0)]
-         IN  <<pick - 1>> \o Smooth(w, T, ids, nxt, total, n - 1)
+\* smooth weighted round-robin: pick the largest current weight (ties: the larger String rank), lower it by
+\* the total, then raise everybody by their own weight.  TLCEval keeps TLC from stacking lazy values.
+WrrPick(ids, cur, T) == CHOOSE i \in ids : \A j \in ids : cur[j] < cur[i] \/ (cur[j] = cur[i] /\ T[j] <= T[i])
+WrrStep(w, ids, cur, total, pick) == [i \in ids |-> cur[i] + w[i] - (IF i = pick THEN total ELSE 0)]
+RECURSIVE Smooth(_, _, _, _, _, _, _)
+Smooth(w, T, ids, cur, total, n, acc) ==
+    IF n = 0 THEN acc
+    ELSE Smooth(w, T, ids, TLCEval(WrrStep(w, ids, cur, total, WrrPick(ids, cur, T))), total, n - 1,
+                TLCEval(Append(acc, WrrPick(ids, cur, T) - 1)))
 
 WeightCycle(W, T) ==
-    LET w     == Scaled(W)
+    LET w     == TLCEval(Scaled(W))
         ids   == {i \in DOMAIN W : w[i] > 0}
         small == SelectSeq([i \in DOMAIN W |-> i], LAMBDA i : w[i] = 0)
         total == SumOver(w, ids)
-    IN  [i \in DOMAIN small |-> small[i] - 1] \o Smooth(w, T, ids, [i \in ids |-> w[i]], total, total)
+    IN  Smooth(w, T, ids, TLCEval([i \in ids |-> w[i]]), total, total, TLCEval([i \in DOMAIN small |-> small[i] - 1]))
 
 CountIn(s, x) == Cardinality({i \in DOMAIN s : s[i] = x})
 
